@@ -350,6 +350,7 @@ class TableView:
         self.row_runs = []  # run length per XML row
         self.cell_runs = []  # per XML row: list of run lengths of its cells
         self.grouped_rows = 0  # row elements that are not direct children of the table
+        self.grouped_cols = 0  # column declarations that are not direct children of the table
 
     @property
     def width(self):
@@ -406,6 +407,8 @@ def table_expand(table_el, max_rows: int = 5000, max_cols: int = 2000) -> TableV
     for c in iter_cols(table_el):
         n = _rep(c, A_RCOLS)
         tv.col_runs.append(n)
+        if c.getparent() is not table_el:
+            tv.grouped_cols += 1
         for _ in range(min(n, max_cols)):
             tv.cols.append((c.get(A_STYLE), c.get(A_DCSTYLE)))
     for r in iter_rows(table_el):
